@@ -89,6 +89,8 @@ structure DS where
   K : KTree := KTree.ofParents #[]
   L : Array Nat := #[]
   vals : Array Int := #[]
+  ever : Array Bool := #[]            -- the position has been stamped at least once (a bundle value marks the field then,
+                                      -- `mark_tsb_value_field_valid`, and never unsets it)
   links : List (Option Nat) := []     -- `none` = input not bound yet
 
 def lmtOf (a : Array Nat) : Lmt := fun x => a.getD x 0
@@ -121,6 +123,27 @@ def dumpLine (d : DS) (t : Nat) : String :=
       s!" | i{i}:" ++ String.join ((List.range n).map fun p =>
         posStr d (decide (inValid L p)) (t != 0 && decide (inModified 0 k L p t)) (inLmt 0 k L p) p)
   "o:" ++ o ++ String.join ins
+
+/-- `position.value()` rendered like a value spec: a bundle field is set once its child has been stamped; the native
+    fixed-list value is dense (never written `Int` elements read 0) -/
+partial def patOf (d : DS) (x : Nat) : String :=
+  if d.flat.leaf.getD x false then toString (d.vals.getD x 0) else
+  let isList := d.flat.list.getD x false
+  "(" ++ ",".intercalate ((d.K.kids x).map fun c => if isList || d.ever.getD c false then patOf d c else "_") ++ ")"
+
+def valLine (d : DS) : String :=
+  let n := d.flat.parents.size
+  let body := String.join ((List.range n).map fun p =>
+    if d.flat.leaf.getD p false then "" else s!" {d.flat.paths.getD p "?"}={patOf d p}")
+  let ins := (d.links.zipIdx).map fun (k, i) =>
+    match k with
+    | none => s!" | i{i}: unbound"
+    | some _ => s!" | i{i}:" ++ body
+  "o:" ++ body ++ String.join ins
+
+/-- the fields a bundle value has marked after the operation: every position that carries a time now -/
+def everAfter (d : DS) (L' : Array Nat) : Array Bool :=
+  (Array.range d.flat.parents.size).map fun x => d.ever.getD x false || L'.getD x 0 != 0
 
 /-- " <path>*<count>" for every notified position, pre-order -/
 def notes (d : DS) (ns : List Nat) : String :=
@@ -167,7 +190,8 @@ def doOp (d : DS) (o : Op) : DS × String :=
   let n := d.flat.parents.size
   let L := lmtOf d.L
   let L' := apply d.K o L
-  ({ d with L := snap n L', links := d.links.map (fun k => k.map (linkStep 0 o L L')) }, notes d (applyN d.K o L))
+  ({ d with L := snap n L', ever := everAfter d (snap n L'), links := d.links.map (fun k => k.map (linkStep 0 o L L')) },
+   notes d (applyN d.K o L))
 
 def step (d : DS) (ws : List String) : DS × String :=
   match ws with
@@ -182,7 +206,7 @@ def step (d : DS) (ws : List String) : DS × String :=
       let f := flatten sh none "" {}
       let n := f.parents.size
       ({ have_ := true, flat := f, K := KTree.ofParents f.parents, L := Array.replicate n 0,
-         vals := Array.replicate n 0, links := List.replicate k none }, s!"ok n={n}")
+         vals := Array.replicate n 0, ever := Array.replicate n false, links := List.replicate k none }, s!"ok n={n}")
     | _ => (d, "bad-op")
   | ["bind", i, t] =>
     if !d.have_ || !isNat i || !isNat t then (d, "bad-op") else
@@ -215,7 +239,7 @@ def step (d : DS) (ws : List String) : DS × String :=
         let L := lmtOf d.L
         let o := wholeOut d.K p t (fun x => ps.contains x) L
         let vals := o.V.foldl (fun a l => match vs.lookup l with | some v => a.setIfInBounds l v | none => a) d.vals
-        ({ d with L := snap n o.L, vals := vals,
+        ({ d with L := snap n o.L, vals := vals, ever := everAfter d (snap n o.L),
                   links := d.links.map (fun k => k.map (linkStepW 0 (.ws p t (fun x => ps.contains x)) L o.L)) },
          (match o.r with | none => "err:logic" | some _ => "ok") ++ notes d o.N)
       | _ => (d, "bad-op")
@@ -230,6 +254,8 @@ def step (d : DS) (ws : List String) : DS × String :=
       (d1, b2s (d.L.getD p 0 != 0) ++ ns)
   | ["dump", t] =>
     if !d.have_ || !isNat t then (d, "bad-op") else (d, dumpLine d t.toNat!)
+  | ["val", t] =>
+    if !d.have_ || !isNat t then (d, "bad-op") else (d, valLine d)
   | [] => (d, "")
   | _ => (d, "bad-op")
 
